@@ -16,7 +16,7 @@ DEFAULT = dict(
     weights=dict(ssink=3, ssinkc=1, csink=2, const=0.3, never=0.2, map=4, mapto=0.5, filter=2, filteropt=0.5,
                  merge=4, orelse=1.5, snapshot=3, snapshot1=0.7, snapshotn=0.5, gate=1, hold=2.5, once=1, updates=1,
                  value=1, mapc=1.5, lift2=2, liftn=0.5, accum=1.5, collect=1, defer=0, split=0, switchs=0, switchc=0,
-                 sloop=0, cloop=0, router=0, holdlazy=0, switchdyn=0, accumlazy=0, collectlazy=0, route=0),
+                 sloop=0, cloop=0, router=0, holdlazy=0, switchdyn=0, accumlazy=0, collectlazy=0, route=0, switchlate=0, switchlatec=0, snaplazy=0),
     max_defer=1, leakcheck=False, malformed=False, values=(-5, 15), coalesce_sends=False,
 )
 
@@ -109,6 +109,8 @@ class Gen:
         elif kind == "snapshotn" and s and c:
             cs = [self.C() for _ in range(r.randint(2, 5))]
             n = self.fresh("s"); L.append(f"snapshotn {n} {s} {' '.join(cs)}"); self.add_stream(n, self.t(s))
+        elif kind == "snaplazy" and s and c and c not in self.swc:
+            n = self.fresh("s"); L.append(f"snaplazy {n} {s} {c}"); self.add_stream(n, self.t(s))
         elif kind == "gate" and s and c:
             n = self.fresh("s"); L.append(f"gate {n} {s} {c}"); self.add_stream(n, self.t(s))
         elif kind == "hold" and s:
@@ -175,9 +177,27 @@ class Gen:
             # the selector counts for the loop rule too: a switch whose selector depends on its own output makes
             # the node graph cyclic (known finding D15)
             n = self.fresh("s"); L.append(f"switchs {n} {c} {' '.join(cs)}"); self.add_stream(n, self.t(c, *cs))
+        elif kind == "switchdyn" and c and s and self.r.random() < self.p.get("unused_base", 0.0) and not self.t(c) and self.ssinks + self.csinks:
+            # the base is a mapped stream nothing else depends on yet: the first candidate is attached to it while events flow
+            src = self.r.choice([x for x in self.streams if x not in self.dropped and not self.t(x) and self.ident.get(x, x) != self.ustream.get(c, "u:" + c)] or [None])
+            if src is None: return False
+            b = self.fresh("s"); L.append(f"map {b} {src} {self.small()}"); self.add_stream(b, set())
+            n = self.fresh("s"); L.append(f"switchdyn {n} {c} {b} {self.op()}"); self.add_stream(n, set())
         elif kind == "switchdyn" and c and s and not self.t(c) and not self.t(s) and self.ident.get(s, s) != self.ustream.get(c, "u:" + c):
             # (the base must not be the selector's own update stream: known finding D16)
             n = self.fresh("s"); L.append(f"switchdyn {n} {c} {s} {self.op()}"); self.add_stream(n, self.t(s))
+        elif kind == "switchlate" and s and s2 and not self.t(s) and not self.t(s2) and self.ident.get(s, s) != self.ident.get(s2, s2):
+            # streams built on demand: every event of s builds a fresh stream on a base (often a map nothing else uses yet)
+            base = s2
+            if self.r.random() < 0.6:
+                base = self.fresh("s"); L.append(f"map {base} {s2} {self.small()}"); self.add_stream(base, set())
+            n = self.fresh("s"); L.append(f"switchlate {n} {s} {base} {self.op()}"); self.add_stream(n, set())
+        elif kind == "switchlatec" and s and s2 and not self.t(s) and not self.t(s2) and self.ident.get(s, s) != self.ident.get(s2, s2):
+            # cells built on demand (each on a fresh hold of the base) and switched to inside the transaction that built them
+            base = s2
+            if self.r.random() < 0.6:
+                base = self.fresh("s"); L.append(f"map {base} {s2} {self.small()}"); self.add_stream(base, set())
+            n = self.fresh("c"); L.append(f"switchlatec {n} {s} {base} {self.op()}"); self.add_cell(n, set()); self.swc.add(n)
         elif kind == "switchc" and c:
             cs = [self.C() for _ in range(r.randint(2, 4))]
             n = self.fresh("c"); L.append(f"switchc {n} {c} {' '.join(cs)}"); self.add_cell(n, self.t(c, *cs)); self.swc.add(n)
@@ -221,6 +241,10 @@ class Gen:
             self.open_cloops.remove(n); self.retaint(n, set()); self.retaint(m, set())
             L.append("end")
             return True
+        early = None
+        if self.r.random() < self.p.get("early_loop_handle", 0.0):
+            # `loop.stream()` / `loop.cell()` taken before `loop_`; consumers are attached to it only afterwards
+            early = self.fresh("s" if kind == "sloop" else "c"); L.append(f"clone {early} {n}")
         w = self.p["weights"]; saved = (w["sloop"], w["cloop"], w["switchc"]); w["sloop"] = w["cloop"] = 0
         if self.p.get("no_switchc_in_loop"): w["switchc"] = 0
         made = 0
@@ -258,9 +282,16 @@ class Gen:
                 else: L.append(f"const {t} {self.small()}")
                 self.add_cell(t); L.append(f"cloopclose {n} {t}")
                 self.retaint(n, set())
-        if pos_variation < 0.3 and made:
-            # loop_ position inside the defining transaction: move the close right after the target's definition
-            pass
+        if early:
+            # the early handle is an ordinary stream/cell from now on (same taint as the loop)
+            if kind == "sloop": self.add_stream(early, self.taint.get(n, set()))
+            else: self.add_cell(early, self.taint.get(n, set()))
+            if self.r.random() < 0.6:
+                # attach a consumer right away, still inside the defining transaction but after `loop_`
+                if kind == "sloop":
+                    m = self.fresh("s"); L.append(f"map {m} {early} {self.small()}"); self.add_stream(m, self.taint.get(early, set()))
+                else:
+                    m = self.fresh("c"); L.append(f"mapc {m} {early} {self.small()}"); self.add_cell(m, self.taint.get(early, set()))
         L.append("end")
         self.body = None
         return True
@@ -329,6 +360,10 @@ class Gen:
                 z = self.fresh("z"); body.insert(r.randrange(len(body) + 1), f"lazy {z} {c}"); self.lazies.append(z)
         if r.random() < p["posts"] and self.cells:
             body.insert(r.randrange(len(body) + 1), f"post {self.fresh('p')} {self.C()}")
+        if r.random() < p.get("postsends", 0.0):
+            # sends made by posted closures (transactions of their own after this one), queued before or after the sends
+            for _ in range(r.randint(1, 2)):
+                body.insert(r.randrange(len(body) + 1), f"postsend {self.fresh('p')} {r.choice(sinks)} {self.val()}")
         if r.random() < p.get("unlisten_in_txn", 0.0) and self.listeners:
             # unlisten while the transaction is open, before or after the sends
             body.insert(r.randrange(len(body) + 1), f"unlisten {r.choice(self.listeners)}")
@@ -362,6 +397,15 @@ class Gen:
                             l = self.fresh("l"); L.append(f"listen {l} {x}"); self.listeners.append(l)
                         else:
                             self.gen_listen()
+                        if p.get("unlisten_new_in_txn") and self.listeners and r.random() < p["unlisten_new_in_txn"]:
+                            # registered and unlistened again before the transaction closes
+                            L.append(f"unlisten {self.listeners[-1]}")
+                if p.get("listen_fired_in_txn") and r.random() < p["listen_fired_in_txn"]:
+                    # a listener on a stream that was already sent to in this transaction, perhaps unlistened again at once
+                    sent = [l.split()[1] for l in body if l.startswith("send ")]
+                    if sent:
+                        x = r.choice(sent); l = self.fresh("l"); L.append(f"listen {l} {x}"); self.listeners.append(l)
+                        if r.random() < 0.5: L.append(f"unlisten {l}")
                 L.extend(tail)
             if r.random() < 0.1 and p["obs"] > 0: L.append("obs")
             # scoped closes may be non-LIFO
